@@ -44,7 +44,7 @@ func devMain(args []string) {
 	if err != nil {
 		panic(err)
 	}
-	defer ex.solver.Close()
+	defer ex.Close()
 	pkg := l.pkgs[rel]
 	t1 := time.Now()
 	st0 := ex.RunInit([]*ssa.Package{pkg})
@@ -68,8 +68,9 @@ func devMain(args []string) {
 	}
 	t2 := time.Now()
 	ex.Explore(st0, fn, nil)
-	fmt.Printf("explored in %v: paths=%v instrs=%d forks=%d queries=%d (sat %d unsat %d unknown %d) solver=%v\n", time.Since(t2), ex.stats.Paths,
-		ex.stats.Instrs, ex.stats.Forks, ex.solver.NQueries, ex.solver.NSat, ex.solver.NUnsat, ex.solver.NUnknown, ex.solver.Time)
+	q, sa, us, uk, stt := ex.solverCounts()
+	fmt.Printf("explored in %v: paths=%v instrs=%d forks=%d queries=%d (sat %d unsat %d unknown %d) solver=%v fallbacks=%d/%d\n", time.Since(t2), ex.stats.Paths,
+		ex.stats.Instrs, ex.stats.Forks, q, sa, us, uk, stt, ex.stats.Fallbacks, ex.stats.Fallbacks2)
 	var ks []string
 	for k, v := range ex.stats.EndSites {
 		ks = append(ks, fmt.Sprintf("%s x%d", k, v))
